@@ -154,13 +154,18 @@ func (c *GroupCoordinator) JoinGroup(ctx context.Context, req *kmsg.JoinGroupReq
 	} else if member.sessionTimeout == 0 {
 		member.sessionTimeout = defaultSessionTimeout
 	}
-	member.topics = c.parseSubscriptionTopics(req.Protocols)
+	topics := c.parseSubscriptionTopics(req.Protocols)
+	// A member that rejoins a stable group with a different subscription needs
+	// a new assignment just as a new member does; otherwise it keeps partitions
+	// of topics it no longer subscribes to and never gets the new ones.
+	subscriptionChanged := exists && !sameTopicSet(member.topics, topics)
+	member.topics = topics
 	member.lastHeartbeat = time.Now()
 
 	if len(state.members) == 1 && state.state == groupStateEmpty {
 		state.leaderID = memberID
 		state.startRebalance(timeout)
-	} else if state.state == groupStateStable && !exists {
+	} else if state.state == groupStateStable && (!exists || subscriptionChanged) {
 		state.startRebalance(timeout)
 	} else if state.state == groupStateEmpty {
 		state.startRebalance(timeout)
@@ -896,6 +901,21 @@ func (c *GroupCoordinator) assignPartitions(ctx context.Context, state *groupSta
 	}
 
 	return assignments
+}
+
+func sameTopicSet(a, b []string) bool {
+	set := make(map[string]struct{}, len(a))
+	for _, t := range a {
+		set[t] = struct{}{}
+	}
+	seen := make(map[string]struct{}, len(b))
+	for _, t := range b {
+		if _, ok := set[t]; !ok {
+			return false
+		}
+		seen[t] = struct{}{}
+	}
+	return len(seen) == len(set)
 }
 
 func memberSubscribes(member *memberState, topic string) bool {
